@@ -28,6 +28,7 @@ fn fmt_stub2(_a: core::fmt::Arguments<'_>) -> String {
 // @harness c01_need_make_mapping
 // @props C01 C10
 // @tier quick
+// @cost 8
 // @timeout 600
 // @desc Qcow2Dev::need_make_mapping (which decides whether write_at pre-populates a mapping) on the mapping the real into_mapping produces for every spec-valid L2 entry: false for a cluster writable in place; false for every copy-on-write source (compressed cluster; backing-provided or unallocated cluster of an image with a backing file) -- pre-populating those would publish a mapping before the old data is copied; true otherwise
 // @bounds raw: every spec-valid u64; full symbolic geometry; has-backing symbolic
